@@ -29,19 +29,22 @@ EXTENDS Dispatch, Json, IOUtils
 
 Rec == ndJsonDeserialize(IOEnv.TRACE)
 
-VARIABLES sc, l
-tvars == <<vars, sc, l>>
+\* TLC does not cache Rec (every reference parses the file again): it is read once, in TInit, and the
+\* scenario record travels in the state variable scn.
+VARIABLES scn, l
+tvars == <<vars, scn, l>>
 
-Ev     == Rec[sc].ev
+Ev     == scn.ev
 ToSet(s) == {s[j] : j \in 1..Len(s)}
 Out(tag, rec) == PrintT(<<tag, ToJson(rec)>>)
 
-CfgOf(s) == [spawn |-> Rec[s].spawn,
-             calls |-> [j \in 1..Len(Rec[s].calls) |-> [kind |-> Rec[s].calls[j].kind, body |-> Rec[s].calls[j].body]]]
+CfgOf(r) == [spawn |-> r.spawn,
+             calls |-> [j \in 1..Len(r.calls) |-> [kind |-> r.calls[j].kind, body |-> r.calls[j].body]]]
 
-TInit == /\ sc \in 1..Len(Rec)
+TInit == /\ \E R \in {Rec} : \E i \in 1..Len(R) :
+              scn = [id |-> R[i].id, spawn |-> R[i].spawn, calls |-> R[i].calls, ev |-> R[i].ev]
          /\ l = 1
-         /\ InitWith(CfgOf(sc))
+         /\ InitWith(CfgOf(scn))
 
 (* ---- the property predicates, on the recorded events alone ---- *)
 Has(e, k)  == \E i \in 1..Len(Ev) : Ev[i].e = e /\ Ev[i].k = k
@@ -49,12 +52,12 @@ Idx(e, k)  == CHOOSE i \in 1..Len(Ev) : Ev[i].e = e /\ Ev[i].k = k
 Count(e, k) == Cardinality({i \in 1..Len(Ev) : Ev[i].e = e /\ Ev[i].k = k})
 Written    == {Ev[i].k : i \in {i \in 1..Len(Ev) : Ev[i].e = "Send"}}
 Pending    == ToSet(Ev[Len(Ev)].pending)
-KindOf(k)  == Rec[sc].calls[k].kind
+KindOf(k)  == scn.calls[k].kind
 Answered ==
   /\ Ev[Len(Ev)].e = "Quiescent" /\ Pending = {}
   /\ \A k \in Written : /\ Count("Reply", k) = 1 /\ Ev[Idx("Reply", k)].ok
                         /\ KindOf(k) # "intro" => Count("Start", k) = 1 /\ Count("End", k) = 1
-SeqWritten == IF Rec[sc].spawn THEN {} ELSE {k \in Written : KindOf(k) \in UserKinds}
+SeqWritten == IF scn.spawn THEN {} ELSE {k \in Written : KindOf(k) \in UserKinds}
 \* (a call that never started -- lost or stuck -- is `answered`'s business, not an ordering failure)
 Ordered == \A j, k \in SeqWritten : (j < k /\ Has("Start", j) /\ Has("Start", k)) =>
                                        (Has("End", j) /\ Idx("End", j) < Idx("Start", k))
@@ -64,7 +67,7 @@ IsEv(e) == l <= Len(Ev) /\ Ev[l].e = e /\ l' = l + 1
 K == Ev[l].k
 
 T_Create == /\ IsEv("Create") /\ CreateOS
-            /\ Out("MONITOR", [id |-> Rec[sc].id, answered |-> Answered, ordered |-> Ordered])
+            /\ Out("MONITOR", [id |-> scn.id, answered |-> Answered, ordered |-> Ordered])
 T_Send   == IsEv("Send") /\ ClientSend /\ sent' = K
 T_Start  == IsEv("Start") /\ HStart(K)
 T_Pass   == IsEv("Pass") /\ HYield(K)
@@ -74,7 +77,7 @@ T_End    == IsEv("End") /\ pc[K] = "ended" /\ UNCHANGED vars
 T_Reply  == IsEv("Reply") /\ Ev[l].ok /\ ClientReply(K)
 T_Quiet  == IsEv("Quiescent") /\ Stuck /\ Unanswered = ToSet(Ev[l].pending) /\ UNCHANGED vars
 T_Done   == /\ l = Len(Ev) + 1
-            /\ Out("DONE", [id |-> Rec[sc].id])
+            /\ Out("DONE", [id |-> scn.id])
             /\ l' = l + 1 /\ UNCHANGED vars
 
 Silent == /\ UNCHANGED l
@@ -82,7 +85,7 @@ Silent == /\ UNCHANGED l
              \/ \E k \in Calls : \/ AcqRootR(k) \/ AcqIfR(k) \/ AnnounceIfW(k) \/ GetIfW(k)
                                 \/ HWantWrite(k) \/ HAnnounceW(k) \/ Finish(k)
 
-TNext == /\ UNCHANGED sc
+TNext == /\ UNCHANGED scn
          /\ \/ T_Create \/ T_Send \/ T_Start \/ T_Pass \/ T_Emit \/ T_Wrote \/ T_End \/ T_Reply \/ T_Quiet \/ T_Done
             \/ Silent
 
